@@ -16,7 +16,7 @@ import (
 // stored to, and the list may not be appended to through a re-slice (x = f[:0]; append(x, …) writes f's backing array).
 func c13ParsedHelloImmutable(c *Ctx) {
 	p := c.P
-	src := map[string]bool{"vers": true, "cipherSuites": true, "extensions": true, "supportedCurves": true, "supportedPoints": true, "serverName": true}
+	src := map[string]bool{"vers": true, "cipherSuites": true, c13ExtField(c.P): true, "supportedCurves": true, "supportedPoints": true, "serverName": true}
 	isHelloField := func(v ssa.Value) (*ssa.FieldAddr, bool) {
 		fa, ok := v.(*ssa.FieldAddr)
 		if !ok {
@@ -114,7 +114,7 @@ func c13ListsFromWire(c *Ctx) {
 	if !c.Anchor(um != nil, "ja3-lists-from-wire", "(*tls.clientHelloMsg).unmarshal") {
 		return
 	}
-	lists := map[string]bool{"cipherSuites": true, "supportedCurves": true, "supportedPoints": true, "extensions": true}
+	lists := map[string]bool{"cipherSuites": true, "supportedCurves": true, "supportedPoints": true, c13ExtField(c.P): true}
 	n := 0
 	umTop := um
 	for _, um := range c13UnmarshalParts(umTop) {
